@@ -151,7 +151,9 @@ func (e *refEnv) Get(idx int, mode, key string, ord uint64) ([]byte, bool) {
 	}
 	return []byte(renderVal(v)), true
 }
-func (e *refEnv) Has(idx int, mode, key string, ord uint64) bool { return e.read(idx, mode, key, ord) != nil }
+func (e *refEnv) Has(idx int, mode, key string, ord uint64) bool {
+	return e.read(idx, mode, key, ord) != nil
+}
 func (e *refEnv) Deltas(name string) string {
 	if e.out[name] == nil {
 		return "<nil>"
